@@ -447,6 +447,8 @@ def b_sorted(self, a, kw):
   es = it.elem_sort
   if 'key' in kw:
     return _sorted_by_key(self, it, es, kw['key'])
+  if isinstance(es, IntSort):
+    return _sorted_by_key(self, it, es, Handler('identity', lambda ex, a, k: a[0], 'sorted() of integers: the key is the value'))
   if es is None or not isinstance(es, Opaque):
     raise OutsideSubset('sorted() of non-opaque items')
   S = SeqOf(es)
